@@ -52,6 +52,7 @@ type State struct {
 	guards   map[string]guardInfo
 	lockSnapNames map[string][]string
 	loopFrame     map[string][]string
+	names    map[string]ssa.Value // source-level variable name (per frame) -> the SSA value currently holding it
 	havocked bool    // some callee may have changed arrays this path has not touched yet
 	sink     *[]Term // specification views: facts produced by heap reads are collected here
 }
@@ -88,6 +89,10 @@ func (st *State) clone() *State {
 	}
 	n.nAssume = st.nAssume
 	n.havocked = st.havocked
+	n.names = make(map[string]ssa.Value, len(st.names))
+	for k, v := range st.names {
+		n.names[k] = v
+	}
 	n.loopFrame = make(map[string][]string, len(st.loopFrame))
 	for k, v := range st.loopFrame {
 		n.loopFrame[k] = v
